@@ -61,7 +61,21 @@ def mk_inertia(J):
     return I
 
 
+def tiny_com(rng):
+    """non-zero centre of mass with |c| log-uniform in 1e-12..1e-3, some components exactly +0.0 or -0.0"""
+    c = rand_unit(rng) * log_uniform(rng, 1e-12, 1e-3)
+    keep = int(rng.integers(3))
+    for j in range(3):
+        if j != keep and rng.random() < 0.35:
+            c[j] = 0.0 if rng.random() < 0.5 else -0.0
+    return c
+
+
 def inertia_sampler(rng):
+    if rng.random() < 0.4:
+        # tiny centre of mass, large mass, small rotational inertia: the m*skew(r) blocks stay above the
+        # correspondence tolerance (1e-11 of the largest entry) although |r| is far below 1e-8
+        return [log_uniform(rng, 1e3, 1e6), tiny_com(rng), spd3(rng, 1e-3, 1.0)]
     return [log_uniform(rng, 1e-3, 1e3), rand_unit(rng) * log_uniform(rng, 1e-3, 1e3), spd3(rng, 1e-3, 1e3)]
 
 
@@ -436,6 +450,12 @@ def oracle(ctx):
         # spatial inertia
         mass = log_uniform(rng, 1e-6, 1e6)
         c = rand_unit(rng) * log_uniform(rng, 1e-6, 1e6) if i % 10 else np.zeros(3)
+        if i % 10 in (1, 2, 3):
+            # tiny but non-zero centre of mass (below any plausible "is it zero" tolerance) with a large mass: the
+            # m*skew(c) blocks are small in absolute terms but carry the angular momentum m (c x v); some components
+            # exactly +0.0 / -0.0
+            c = tiny_com(rng)
+            mass = log_uniform(rng, 1.0, 1e6)
         I3 = spd3(rng)
         try:
             J = SpatialInertia(mass, c, I3)
@@ -469,6 +489,12 @@ def oracle(ctx):
         mo = J * SpatialVelocity(acc)
         cls_is('inertia-vel', mo, SpatialMomentum, np.r_[inp, acc])
         chk('inertia-vel', mo.A, ref @ acc, np.abs(ref) @ np.abs(acc), np.r_[inp, acc])
+        # pure translation at up to 1e6: the angular momentum is exactly m (c x v), the force moment m (c x a)
+        lin = np.r_[rand_unit(rng) * log_uniform(rng, 1e-6, 1e6), 0.0, 0.0, 0.0]
+        want = np.r_[mass * lin[:3], mass * np.cross(c, lin[:3])]
+        wsc = np.r_[mass * np.abs(lin[:3]), np.full(3, mass * np.linalg.norm(c) * np.linalg.norm(lin[:3]))]
+        chk('inertia-vel-translation', (J * SpatialVelocity(lin)).A, want, wsc, np.r_[inp, lin])
+        chk('inertia-acc-translation', (J * SpatialAcceleration(lin)).A, want, wsc, np.r_[inp, lin])
         # SE3 premultiplication
         Tm = np.eye(4)
         Tm[:3, :3] = rand_rot(rng)
